@@ -725,7 +725,19 @@ namespace xsimd
     {
         if (std::numeric_limits<T>::is_signed)
         {
-            return sadd(lhs, (T)-rhs);
+            // not sadd(lhs, -rhs): -rhs overflows for the minimal value
+            if ((rhs < 0) && (lhs > std::numeric_limits<T>::max() + rhs))
+            {
+                return std::numeric_limits<T>::max();
+            }
+            else if ((rhs > 0) && (lhs < std::numeric_limits<T>::lowest() + rhs))
+            {
+                return std::numeric_limits<T>::lowest();
+            }
+            else
+            {
+                return lhs - rhs;
+            }
         }
         else
         {
